@@ -146,6 +146,36 @@ CLAIMED = {
             "token kinds symbolic, texts looked up lazily (the regex tokenizer realises); queries in the algebra "
             "harnesses are concrete and selected by small ints; shapes of <=5 tags; depth-4 grammar x depth-4 "
             "annotations and query_service (pandas) are outside."),
+    "C09": ("3/C09",
+            "Bounded, solver-decided on the mini schema: acceptance of a definition into a DefinitionDict for a "
+            "symbolic name and 12 body shapes against the reference predicate (one group, <=1 content group, no '/' "
+            "or '#' in the name, no inner Def*, exactly one '#' on a value-taking tag iff '/#'; duplicates reported "
+            "once and ignored); after every expand/shrink/copy in any sequence of <=3 operations str() terminates and "
+            "equals the reference rendering (expand idempotent, shrink restores, copies independent); a written "
+            "Def-expand group validates iff it equals the expansion up to sibling order. One recorded known finding "
+            "(unplugged placeholder content accepted) is excluded and replayed.",
+            "five fixed definitions and fixed annotation positions; names/values of 1-3 characters; validate is not "
+            "interleaved into the operation sequence; df_util column variants and def_expand_gather (pandas) outside."),
+    "C11": ("3/C11",
+            "Bounded, solver-decided on the mini schema with the real 8.3.0 timeUnits table (and a pruned variant with "
+            "a currency prefix unit): for every unit text up to the bound, accepted iff the reference (built from the "
+            "MediaWiki text: names singular/plural in any case, symbols exact case, SI prefixes where permitted) "
+            "spells a unit, and then value_as_default_unit is defined and equals number x factor for the fixed number "
+            "3, None for an unrecognised unit and never an exception; value x unit agreement between validation and "
+            "conversion; prefix units in front of the number; the numeric pattern over every Unicode string up to the "
+            "bound; bare numbers draw only the missing-unit warning.",
+            "float(<symbolic text>) is modelled by an exact ASCII acceptance recogniser with an abstract value (no "
+            "assertion depends on the product except for the fixed number); linearity over IEEE doubles and the "
+            "60x40 unit/prefix combinations of every bundled schema are outside."),
+    "C14": ("3/C14",
+            "Bounded, solver-decided per attribute rule as a function of an arbitrary attribute value: conversion "
+            "factor, numeric value, allowedCharacter, inLibrary, placeholder-only class attributes, deprecatedFrom "
+            "(unknown / not older, own library's versions), item existence and deprecation, hedId (changed, out of "
+            "range, malformed), term and description character rules, problem indexes - each against an independent "
+            "reading of the rule. 'Every released schema passes' and fault seeding at every position of a real schema "
+            "are concrete whole-schema runs and are NOT decided.",
+            "real entry/section objects with 3 short-named entries, a namespace object for the schema header, "
+            "released-version lists as harness inputs; float()/int() on symbolic text modelled exactly on ASCII."),
 }
 
 NOT_APPLICABLE = {
